@@ -444,7 +444,48 @@ def c15(cx):
                   ASSUME_CONN + ["the race detector is an auxiliary monitor outside the TLA+ family (DESIGN 4 C15)"])
 
 
-PROPS = {"C15": c15, "C11": c11, "C18": c18, "C03": c03, "C02": c02, "C09": c09, "C14": c14, "C16": c16, "C20": c20, "C10": c10, "C19": c19, "C12": c12, "C01": c01, "C13": c13, "C05": c05, "C06": c06, "C07": c07, "C08": c08, "C17": c17}
+def c04(cx):
+    build_harness(cx)
+    thorough = cx.tier == "thorough"
+    files = []
+
+    def stage(tag, b, cmd, trace_module, extra=None):
+        files.append(b)
+        sample_behaviours(cx, b, 1)
+        trace, crash = play(cx, b, tag, cmd=cmd, extra=extra)
+        rejected = [] if crash else validate(cx, trace, trace_module)
+        judge(cx, b, trace, rejected, crash, trace_module, play_cmd=cmd, play_extra=extra)
+
+    # (a) every malformation class in every phase, with continuations and end of input; then a probe connection
+    b = model_check(cx, "MC_C04", consts=({"MaxSends": 6} if thorough else None))
+    subsample(cx, b, 40000 if thorough else 4000)
+    stage("hostile", b, "play", "Trace_PgConn", ["-proj", "C04"])
+    # (b) valid sessions with the transport failing at the k-th read / write / after n bytes; then a probe
+    stage("faults", gen_random(cx, "C04F", 8000 if thorough else 600, tag="faults"), "play", "Trace_PgConn", ["-proj", "C04"])
+    # (c) random / mutated bytes, count bombs, gigabyte headers, hostile COPY streams, helper fuzzing; then a probe
+    stage("junk", gen_random(cx, "C04J", 20000 if thorough else 1500, tag="junk"), "junk", "Trace_Robust")
+    count_distinct(cx, *files)
+    cx.cov["trusted_base"] = TB_CONN + ["runtime.MemStats.TotalAlloc deltas", "process death / bounded waits observed by the orchestrator"]
+    return finish(cx, "model_checking",
+                  "(a) TLC explores on the bounded model every malformation class (unparseable body of every message type: "
+                  "missing terminator, short field, count beyond the body; declared length below the minimum / beyond the "
+                  "limit; unknown type; a header declaring 2^31 bytes) in every phase (startup, after a refused SSL request, "
+                  "authentication, session, discarding, inside COPY) with continuations and end of input, checking that no "
+                  "such message reaches a callback and that the only step after the end of input closes the connection; each "
+                  "behaviour runs on the real server, followed by a probe connection on the same server; TLC validates the "
+                  "reaction (close, or error and continue; never a callback), the close after end of input, the probe session "
+                  "and the measured allocation per hostile message (<= 4*max(L,4096) + 2*sent + 4 MiB). (b) valid sessions with "
+                  "the transport failing at the k-th read, k-th write or after n bytes: nothing is emitted after the fault and "
+                  "the connection is closed; probe. (c) random and mutated byte strings on fresh connections and after startup, "
+                  "count bombs (65535 announced codes / parameters / types, 2^31-byte parameter, gigabyte headers), hostile "
+                  "binary COPY streams read through the library's row reader, direct fuzzing of ParseParameters and "
+                  "Parameter.Scan: validated against Trace_Robust (process alive, connection closed after its input ends, "
+                  "allocation bound, helpers return, probe served exactly as usual). A crash of the server kills the harness "
+                  "process and is reported with the input that caused it.",
+                  ASSUME_CONN + ["waits are bounded (10 s) only to detect a wedged connection"])
+
+
+PROPS = {"C04": c04, "C15": c15, "C11": c11, "C18": c18, "C03": c03, "C02": c02, "C09": c09, "C14": c14, "C16": c16, "C20": c20, "C10": c10, "C19": c19, "C12": c12, "C01": c01, "C13": c13, "C05": c05, "C06": c06, "C07": c07, "C08": c08, "C17": c17}
 
 
 def replay(cx, path):
